@@ -319,6 +319,8 @@ func c15WhoWrites(c *Ctx) {
 
 var c15PhiBusy = map[*ssa.Phi]bool{}
 
+var c15EscapeDepth int
+
 // c15TableUseEscapes: how a use of a loaded table value lets it escape ("" = harmless).
 func c15TableUseEscapes(ref ssa.Instruction, v ssa.Value) string {
 	switch x := ref.(type) {
@@ -334,6 +336,25 @@ func c15TableUseEscapes(ref ssa.Instruction, v ssa.Value) string {
 					return "" // re-assignment is checked by the table-assignment clause
 				}
 			}
+		}
+		// a helper of the package that only measures, indexes, ranges over or re-slices what it receives does not let the
+		// table escape (its element stores are seen by the element-store clause like those of any function of the package)
+		if callee := x.Call.StaticCallee(); callee != nil && callee.Blocks != nil && callee.Pkg == x.Parent().Pkg && !x.Call.IsInvoke() && c15EscapeDepth < 3 {
+			c15EscapeDepth++
+			defer func() { c15EscapeDepth-- }()
+			for i, a := range x.Call.Args {
+				if a != v || i >= len(callee.Params) {
+					continue
+				}
+				if refs := callee.Params[i].Referrers(); refs != nil {
+					for _, r2 := range *refs {
+						if why := c15TableUseEscapes(r2, callee.Params[i]); why != "" {
+							return "table passed to " + callee.Name() + ", where: " + why
+						}
+					}
+				}
+			}
+			return ""
 		}
 		return "table passed to " + x.Call.Value.Name()
 	case *ssa.Return:
